@@ -12,5 +12,5 @@ def jobs(tier, seed):
                   bound="all timeout in 1..INT_MAX, maxtimeout in 0..INT_MAX, tries in 1..INT_MAX, servers 1..16, "
                         "try_count < servers*tries, arbitrary metrics buckets, arbitrary jitter; one call"))
     J += mjobs.requeue_jobs(tier)
-    J += [j for j in mjobs.answer_jobs(tier, kf_group="c06_answer") if j["name"].endswith("current")]
+    J += [j for j in mjobs.answer_jobs(tier, owner=False) if j["name"].endswith("current")]
     return J
